@@ -172,6 +172,15 @@ def spec_C12(lines, ghost=None):
                            (tgt, snd[0], snd[1], [p for _, p in sorted(zip(idx, mine))], mine))
     return bad
 
+def spec_C14(lines, ghost=None):
+    """An insertion reaction names an entity that exists (the insertion really happened)."""
+    bad = []
+    for i, l in enumerate(lines):
+        if l.startswith("body "):
+            o = parse_obs(tok(l)[3:])
+            if "!" in o.get("ins", ""): bad.append("line %d: insertion reaction for an entity that does not exist: %s" % (i, o.get("ins")))
+    return bad
+
 def spec_C15(lines, ghost=None):
     return []
 
@@ -180,8 +189,8 @@ def spec_none(lines, ghost=None): return []
 SPECS = {
     "C01": [], "C02": [spec_C02], "C03": [spec_expect], "C04": [spec_C04, spec_expect], "C05": [spec_C05],
     "C06": [], "C07": [], "C08": [], "C09": [spec_C02], "C10": [], "C11": [spec_C11, spec_C02],
-    "C12": [spec_C12, spec_expect], "C13": [spec_C13], "C14": [], "C15": [], "C16": [spec_expect], "C17": [],
-    "C18": [spec_C05],
+    "C12": [spec_C12, spec_expect], "C13": [spec_C13], "C14": [spec_C14], "C15": [], "C16": [spec_expect], "C17": [],
+    "C18": [spec_C05, spec_C14],
 }
 
 # specs evaluated on the model trace with ghosts; a failure there only counts for the implementation when the
